@@ -182,6 +182,14 @@ func vJSONObj(kind, n, m, dims, anyAt int) vJSONCase {
 		want = append(want, inner.want...)
 		want = append(want, `,"properties":{}}`...)
 		return vJSONCase{NewFeature(inner.obj, ""), want}
+	case 9, 10: // GeometryCollection / FeatureCollection whose children are all empty: [Polygon(nil), empty LineString]
+		e1, e2 := NewPolygon(nil), NewLineString(geometry.NewLine(nil, vNoIdx))
+		if kind == 9 {
+			want = append(want, `{"type":"GeometryCollection","geometries":[{"type":"Polygon","coordinates":[]},{"type":"LineString","coordinates":[]}]}`...)
+			return vJSONCase{NewGeometryCollection([]Object{e1, e2}), want}
+		}
+		want = append(want, `{"type":"FeatureCollection","features":[{"type":"Feature","geometry":{"type":"Polygon","coordinates":[]},"properties":{}}]}`...)
+		return vJSONCase{NewFeatureCollection([]Object{NewFeature(e1, "")}), want}
 	case 7, 8: // GeometryCollection / FeatureCollection of [Point, Polygon(n,m), empty collection]
 		a := vJSONObj(0, 0, 0, 0, anyAt)
 		b := vJSONObj(3, n, m, dims, -1)
